@@ -158,7 +158,8 @@ def match_known(prop: str, ob: Ob, out: Outcome, known: List[dict]) -> Optional[
 def write_replay(prop: str, ob: Ob, out: Outcome) -> str:
     d = os.path.join(ROOT, "replays", prop)
     os.makedirs(d, exist_ok=True)
-    path = os.path.join(d, ob.id.replace("/", "_") + ".json")
+    import re
+    path = os.path.join(d, re.sub(r"[^A-Za-z0-9._-]+", "_", ob.id) + ".json")
     with open(path, "w") as f:
         json.dump({
             "property": prop,
@@ -182,7 +183,8 @@ def write_replay(prop: str, ob: Ob, out: Outcome) -> str:
 def write_evidence(prop: str, tier: str, seed: int, level: str, obs: List[Ob], outs: List[Outcome],
                    wall: float, assumptions: List[str], trusted_base: List[str], violations: int,
                    known_hits: List[str], extra: Dict[str, Any]) -> str:
-    proofish = [(o, r) for o, r in zip(obs, outs) if o.kind in ("proof", "finite")]
+    known_ids = {h.split(" ")[2].rstrip(":") for h in known_hits}   # "KNOWN-FINDING: property=X <ob id>: ..."
+    proofish = [(o, r) for o, r in zip(obs, outs) if o.kind in ("proof", "finite") and o.id not in known_ids]
     bounded = [(o, r) for o, r in zip(obs, outs) if o.kind == "bounded" or r.status.startswith("bounded")]
     n_ob = len(proofish)
     n_dis = sum(1 for o, r in proofish if r.status == "discharged")
